@@ -31,7 +31,12 @@ var ops = map[OpCode]OpFunc{
 	"-": func(left, right float64) float64 { return left - right },
 	"/": func(left, right float64) float64 { return left / right },
 	"^": math.Pow,
-	"%": func(left, right float64) float64 { return float64(int64(left) % int64(right)) },
+	"%": func(left, right float64) float64 {
+		if int64(right) == 0 { // integer remainder by zero is undefined (and would panic)
+			return math.NaN()
+		}
+		return float64(int64(left) % int64(right))
+	},
 
 	// Shift
 	"<<": func(left, right float64) float64 { return float64(int64(left) << int64(right)) },
